@@ -303,7 +303,15 @@ func TestStatsEqualRecount(t *testing.T) {
 					pkts = append(pkts, &rtcp.SenderReport{SSRC: ssrc, NTPTime: nextStamp(), RTPTime: 1, PacketCount: 2, OctetCount: 3})
 					types["SR"] = true
 				case 1:
-					pkts = append(pkts, &rtcp.ExtendedReport{SenderSSRC: 5, Reports: []rtcp.ReportBlock{&rtcp.ReceiverReferenceTimeReportBlock{NTPTimestamp: nextStamp()}}})
+					// an XR with a receiver reference time block, alone or next to blocks that name one particular stream: every recorder still sees the RRTR
+					blocks := []rtcp.ReportBlock{&rtcp.ReceiverReferenceTimeReportBlock{NTPTimestamp: nextStamp()}}
+					switch rapid.IntRange(0, 3).Draw(t, "xrMix") {
+					case 0:
+						blocks = append(blocks, &rtcp.DLRRReportBlock{Reports: []rtcp.DLRRReport{{SSRC: pickSSRC(t, "xrDlrrFor", false), LastRR: 1, DLRR: 1}}})
+					case 1:
+						blocks = append([]rtcp.ReportBlock{&rtcp.DLRRReportBlock{Reports: []rtcp.DLRRReport{{SSRC: pickSSRC(t, "xrDlrrFor", true), LastRR: 1, DLRR: 1}}}}, blocks...)
+					}
+					pkts = append(pkts, &rtcp.ExtendedReport{SenderSSRC: rapid.SampledFrom([]uint32{5, 5, 0}).Draw(t, "xrSender") + uint32(rapid.IntRange(0, 1).Draw(t, "xrSenderIsStream"))*pickSSRC(t, "xrSenderSSRC", false), Reports: blocks})
 					types["XR"] = true
 				case 2:
 					pkts = append(pkts, &rtcp.ReceiverReport{SSRC: 5})
